@@ -434,9 +434,7 @@ pub fn judge(j: &Judge) -> Vec<Violation> {
         let exp = j.expected.by_path.get(rel);
         let is_old = a.bytes == b.bytes;
         let is_new = exp.map(|e| e.iter().any(|x| *x == a.bytes)).unwrap_or(false);
-        if a.mode != b.mode {
-            v.push(mk("mode-changed", rel, format!("{} had mode {:o}, now {:o}", rel, b.mode, a.mode)));
-        }
+        // (the file mode is not part of the property: a rewrite that changes it is not reported)
         let colliding = j.expected.collisions.iter().any(|c| c == rel);
         if colliding && !is_new {
             // several paths share one key under iwe's derivation: the note either receives the text of
